@@ -8,12 +8,12 @@ SPEC = {'level': 'exploration',
                  'IsOversized(MAIN) while staging exists is expected to stay at its value from StartStaging (txgraph.h: Ref destruction does not clear it)',
                  'staging chunk multiset for GetMainStagingDiagrams is computed with the documented strict merge rule on the GetCluster(TOP) order',
                  'DoWork return value and optimality claims are not interpreted (see C24)'],
- 'stages': [gen('vh_c25', 'c25_txgraph', 16000, 300000, min_cases_quick=6000,
+ 'stages': [gen('vh_c25', 'c25_txgraph', 12000, 240000, min_cases_quick=4000,
                 floors={'staging': 0.5, 'commit': 0.2, 'abort': 0.3, 'oversized-observed': 0.25, 'trim-removed-something': 0.2, 'trim-in-staging': 0.1,
                         'ref-destroyed-while-staging': 0.15, 'ref-moved-while-staging': 0.2, 'main/staging-diagrams-checked': 0.2, 'skip-walk': 0.15,
                         'max-live:25-64': 0.15, 'max-live:>64': 0.05},
                 rule='op sequences on TxGraph vs naive model; non-trivial = staging + oversized observed + effective Trim'),
-            gen('vh_c25', 'up_txgraph', 8000, 150000, rule='upstream txgraph simulation fuzz target, supplementary')]}
+            gen('vh_c25', 'up_txgraph', 5000, 100000, rule='upstream txgraph simulation fuzz target, supplementary')]}
 
 META = {'level_text': 'Stateful generated search: operation sequences (up to 2000 operations, up to 96 live transactions, cluster limits 1..64) over the whole public '
                'TxGraph interface, including staging, Ref destruction and moves while staging exists, oversize and Trim, concurrent BlockBuilders, executed in '
